@@ -17,10 +17,10 @@ var baseClasses = []file{
 
 // Inputs that make the validate options matter.
 var validateClasses = []file{
-	{"m.sql", "SELECT a FROM t LIMIT 1, 2\n", "mysql-only"},      // accepted only with --dialect mysql
-	{"q.sql", "SELECT 'abc FROM t\n", "tokenizer-error"},         // fails in the tokenizer, not the parser
-	{"s.sql", "SELECT 1;;\n", "empty-statement"},                 // strict and non-strict library verdicts differ
-	{"b.sql", "  \n", "blank"},                                   // library entry points disagree (like empty)
+	{"m.sql", "SELECT a FROM t LIMIT 1, 2\n", "mysql-only"},     // accepted only with --dialect mysql
+	{"q.sql", "SELECT 'abc FROM t\n", "tokenizer-error"},        // fails in the tokenizer, not the parser
+	{"s.sql", "SELECT 1;;\n", "empty-statement"},                // strict and non-strict library verdicts differ
+	{"b.sql", "  \n", "blank"},                                  // library entry points disagree (like empty)
 	{"sub/n.sql", "SELECT x FROM\n", "invalid-in-subdirectory"}, // path with a separator in the reports
 }
 
